@@ -1352,6 +1352,9 @@ pub fn param_sets(cfg: &RunCfg) -> Vec<(String, ParamSpec, usize, bool)> {
     let mut sp = ParamSpec::new(Scheme::BGV, 4, chain(4, &[60, 60, 60]), 17);
     sp.special_enc = true;
     v.push(("bgv_p8_spenc".to_string(), sp, 2, true));
+    // primes just above 2^(k-1): bits(product) < sum of bits(prime) (the library's own prime search never produces these)
+    v.push(("bfv_p15_low_primes".to_string(), ParamSpec::new(Scheme::BFV, 4, chain_low(4, &[30, 30, 30, 30]), 17), 1, true));
+    v.push(("bgv_p16_low_primes".to_string(), ParamSpec::new(Scheme::BGV, 4, chain_low(4, &[40, 40, 40]), 17), 1, true));
     // complete plaintext space for a tiny (N, t)
     v.push(("bfv_p13_all_plaintexts".to_string(), ParamSpec::new(Scheme::BFV, 2, chain(2, &[40, 40, 40]), 5), 1, true));
     v.push(("bgv_p14_all_plaintexts".to_string(), ParamSpec::new(Scheme::BGV, 2, chain(2, &[40, 40, 40]), 5), 1, true));
